@@ -30,6 +30,8 @@ var checks = map[string]func(*core.Ctx){
 	"C09": subs.Run,
 	"C10": storesim.RunC10,
 	"C11": storesim.RunC11,
+	"C13": storesim.RunC13,
+	"C14": storesim.RunC14,
 	"C15": qevent.Run,
 	"C16": racer.Run,
 	"C17": pattern.Run,
